@@ -988,12 +988,6 @@ WITNESS_ARGS = {
                 "ops": [["set", ["region", [["i", 0], ["s", 0, 3, 2]]], ["values", [7, 8]]]]},
 }
 _S32 = {"shape": [3, 2], "data": [0, 3, 0, 4, 0, 5], "subs": [[1, 0], [0, 1], [2, 1]], "vals": [3, 4, 5]}
-WITNESS_ARGS.update({
-    "C04-N11": {"start": _S32, "classes": ["sparse"],
-                "ops": [["get", ["region", [["l", [1, 1]], ["s", None, None, None]]]]]},
-    "C04-N15": {"start": _S32, "classes": ["sparse"],
-                "ops": [["set", ["region", [["l", [1, 1]], ["s", 0, 2, None]]], ["values", [1, 3, 2, 0]]]]},
-})
 WITNESSES = {fid: _witness(a) for fid, a in WITNESS_ARGS.items()}
 WITNESSES.update(X.WITNESSES_EXTRA)
 
@@ -1022,6 +1016,10 @@ REGRESSION_ARGS = {
                 "ops": [["set", ["region", [["l", [0, 0, 2]], ["i", 1]]], ["scalar", 7]]]},
     "C04-N13": {"start": _S32, "classes": ["sparse"],
                 "ops": [["set", ["region", [["l", [1, 1]], ["s", 0, 2, None]]], ["values", [1, 3, 2, 4]]]]},
+    "C04-N11": {"start": _S32, "classes": ["sparse"],
+                "ops": [["get", ["region", [["l", [1, 1]], ["s", None, None, None]]]]]},
+    "C04-N15": {"start": _S32, "classes": ["sparse"],
+                "ops": [["set", ["region", [["l", [1, 1]], ["s", 0, 2, None]]], ["values", [1, 3, 2, 0]]]]},
     "C04-N10": {"start": {"shape": [3, 2], "data": [0] * 6, "subs": [], "vals": []}, "classes": ["sparse"],
                 "ops": [["set", ["region", [["l", [1, 1]], ["s", 0, 2, None]]], ["scalar", 5]],
                         ["get", ["linslice", None, None, None]]]},
